@@ -134,6 +134,14 @@ def m_C05(tier):
         for alg in ('no', 'inf'):
             for backend, init in (('none', 'empty'), ('dict', 'seeded_archive'), ('plaindict', 'seeded_cache')):
                 cfgs.append(C(mod, alg, None, False, 'default', backend, init))
+    # many distinct keys on a small alphabet: LFU evicts two entries at a time, so bookkeeping left behind by
+    # clear(keepstats=True) / a raising call / purge needs >= 5 distinct keys at maxsize 2 before it can overfill
+    for mod in MODULES:
+        for alg in BOUNDED:
+            for backend in ('none', 'dict'):
+                cfgs.append(C(mod, alg, 2, False, 'default', backend, nargs=5, spellings=0, wide=True))
+            if tier == 'thorough':
+                cfgs.append(C(mod, alg, 3, False, 'default', 'dict', nargs=6, spellings=0, wide=True))
     if tier == 'thorough':
         for mod in MODULES:
             for alg in BOUNDED:
@@ -258,6 +266,9 @@ def m_C18(tier):
                 cfgs.append(C(mod, alg, ms, False, 'default' if mod == 'std' else 'str', 'dict', ignore=ign))
             cfgs.append(C(mod, alg, ms, False, 'str', 'dict', tol=0))
             cfgs.append(C(mod, alg, ms, False, 'str', 'dict', tol=1, deep=True))
+            # float arguments that really are rounded (positionally and by keyword)
+            cfgs.append(C(mod, alg, ms, False, 'str', 'dict', tol=1, args='float'))
+            cfgs.append(C(mod, alg, ms, False, 'default', 'dict', tol=0, deep=True, args='float'))
     if tier == 'thorough':
         for mod in MODULES:
             for alg in ALL:
@@ -281,6 +292,10 @@ def m_C20(tier):
                 cfgs.append(C(mod, alg, sizes[0], False, km, 'dict', nargs=2, spellings=1))
             for b in (('file',) if tier == 'quick' else ('file', 'dir', 'null')):
                 cfgs.append(C(mod, alg, sizes[0], False, 'str', b, nargs=2, spellings=1))
+            # archives whose settings travel only in their pickled state (protocol, compression, ...)
+            if tier == 'thorough' or alg in ('lru', 'no'):
+                for b in ('dirjson', 'filejson', 'dirfast', 'dir'):
+                    cfgs.append(C(mod, alg, sizes[0], False, 'str', b, 'seeded_archive', nargs=2, spellings=1))
     return cfgs
 
 
@@ -296,6 +311,8 @@ def ev_for(prop, cfg, tier):
         if cfg['alg'] == 'lfu':
             ev += [('callx', 0, 3)]
         return ev
+    if prop == 'C05' and cfg.get('wide'):
+        return call_events(n, sp) + [('clearks',), ('clear',)]
     if prop == 'C05':
         return call_events(n, sp) + [('load',), ('dump',), ('clear',), ('clearks',), ('raise', 0, 'Boom')]
     if prop == 'C01':
